@@ -16,36 +16,36 @@ import (
 
 // OpRec is one membership / chip operation issued by the driver.
 type OpRec struct {
-	Kind  string `json:"kind"` // buyin, rebuy, addon, leave, join
-	ID    string `json:"id"`
-	Seat  int    `json:"seat,omitempty"`
-	Chips int64  `json:"chips,omitempty"`
-	Err   string `json:"err,omitempty"`
-	Phase string `json:"phase"` // between | mid | paused | start
-	WasBusted bool `json:"was_busted,omitempty"` // add-on given to a player without chips
-	Hand  int    `json:"hand"`
+	Kind      string `json:"kind"` // buyin, rebuy, addon, leave, join
+	ID        string `json:"id"`
+	Seat      int    `json:"seat,omitempty"`
+	Chips     int64  `json:"chips,omitempty"`
+	Err       string `json:"err,omitempty"`
+	Phase     string `json:"phase"`                // between | mid | paused | start
+	WasBusted bool   `json:"was_busted,omitempty"` // add-on given to a player without chips
+	Hand      int    `json:"hand"`
 }
 
 // Churn selects which operations the driver mixes into play.
 type Churn struct {
-	BetweenP       float64
-	MidP           float64
-	Rebuy          bool
-	AddOn          bool
-	BuyIn          bool
-	Leave          bool
-	SitOut         bool // sometimes reserve without joining
-	OverlapOpen    float64 // probability per hand of a re-buy / add-on issued from another goroutine 0..3 ms after the last settlement signal, so that it overlaps the engine opening the hand
-	MidTopup       bool
-	MidJoin        bool
-	MidLeaveOther  bool // non-participants leave mid-hand
-	MidLeavePart   bool // a dealt-in player leaves mid-hand (recorded finding of C01/C02)
-	RandomSeat     bool
-	Batch          bool // batch leaves and UpdateTablePlayers calls
+	BetweenP        float64
+	MidP            float64
+	Rebuy           bool
+	AddOn           bool
+	BuyIn           bool
+	Leave           bool
+	SitOut          bool    // sometimes reserve without joining
+	OverlapOpen     float64 // probability per hand of a re-buy / add-on issued from another goroutine 0..3 ms after the last settlement signal, so that it overlaps the engine opening the hand
+	MidTopup        bool
+	MidJoin         bool
+	MidLeaveOther   bool // non-participants leave mid-hand
+	MidLeavePart    bool // a dealt-in player leaves mid-hand (recorded finding of C01/C02)
+	RandomSeat      bool
+	Batch           bool // batch leaves and UpdateTablePlayers calls
 	TableLevelGuard bool // judge openability by the table's own data only (C08: a seat manager that disagrees is the defect)
-	AddOnBusted    bool // add-ons to busted players between hands (the seat manager learns of them at the next continue)
-	ResumePaused   bool
-	MaxOpsPerPoint int
+	AddOnBusted     bool // add-ons to busted players between hands (the seat manager learns of them at the next continue)
+	ResumePaused    bool
+	MaxOpsPerPoint  int
 }
 
 type PlayOpts struct {
@@ -60,30 +60,31 @@ type PlayOpts struct {
 
 // PlayMon are the oracle hooks of a check.
 type PlayMon struct {
-	OnEvent   func(p *Play, e *h.Ev)
-	OnStart   func(p *Play)
-	AfterHand func(p *Play, hd *h.Hand)           // Q-between: after settle and set-up/pause
-	AfterOp   func(p *Play, op OpRec)             // Q-op
-	BeforeAct func(p *Play, e *h.Ev, gp int, pid string) bool
-	OnRequest func(p *Play, e *h.Ev, kind string, asked []string) []string
-	BeforeSignal func(p *Play) // after between-ops, before signalling the pending set-up
+	OnEvent      func(p *Play, e *h.Ev)
+	OnStart      func(p *Play)
+	AfterHand    func(p *Play, hd *h.Hand) // Q-between: after settle and set-up/pause
+	AfterOp      func(p *Play, op OpRec)   // Q-op
+	BeforeAct    func(p *Play, e *h.Ev, gp int, pid string) bool
+	OnRequest    func(p *Play, e *h.Ev, kind string, asked []string) []string
+	BeforeSignal func(p *Play)                                              // after between-ops, before signalling the pending set-up
+	AfterAct     func(p *Play, e *h.Ev, gp int, pid, act string, err error) // right after the driver's move returned
 }
 
 // Play is the state of one W-play execution.
 type Play struct {
-	C       *h.Ctx
-	SS      *h.Session
-	Cfg     h.TableCfg
-	Opts    PlayOpts
-	Mon     *PlayMon
-	Exp     map[string]int64 // expected bankroll per seated player (chip ledger)
-	In, Out int64
-	Ops     []OpRec
-	HandNo  int
-	CurHand *h.Hand
-	Tainted string // set when a recorded finding was triggered: later events are not judged
-	Stalled bool
-	StopNow bool // set by a monitor to end the run at once (the current hand is abandoned)
+	C          *h.Ctx
+	SS         *h.Session
+	Cfg        h.TableCfg
+	Opts       PlayOpts
+	Mon        *PlayMon
+	Exp        map[string]int64 // expected bankroll per seated player (chip ledger)
+	In, Out    int64
+	Ops        []OpRec
+	HandNo     int
+	CurHand    *h.Hand
+	Tainted    string // set when a recorded finding was triggered: later events are not judged
+	Stalled    bool
+	StopNow    bool // set by a monitor to end the run at once (the current hand is abandoned)
 	EndedShort bool
 	PolicyName string
 	DeckName   string
@@ -617,6 +618,9 @@ func RunPlayCfg(c *h.Ctx, cfg h.TableCfg, po PlayOpts, mon *PlayMon) *Play {
 				return mon.BeforeAct(p, e, gp, pid)
 			}
 			return true
+		}
+		if mon.AfterAct != nil {
+			sc.AfterAct = func(e *h.Ev, gp int, pid, act string, err error) { mon.AfterAct(p, e, gp, pid, act, err) }
 		}
 		if mon.OnRequest != nil {
 			sc.OnRequest = func(e *h.Ev, kind string, asked []string) []string { return mon.OnRequest(p, e, kind, asked) }
